@@ -153,8 +153,29 @@ func (ex *Exec) verifyFunc(fn *ssa.Function, con *Contract) {
 		st.assume(ex.evalClause(env, cl, con))
 		ex.noteAssumption("assumed, not checked at call sites: " + run.short + " " + cl.Label + ": " + cl.Src)
 	}
+	// axioms over uninterpreted spec functions: registered as global facts owned by the functions they mention, so
+	// that only queries talking about those functions carry the (quantified) axiom
 	for _, ax := range ex.db.Axioms {
-		st.assume(ex.evalClause(&SpecEnv{st: st, vars: map[string]Val{}}, ax, &Contract{Key: "axiom"}))
+		scratch := &State{ex: ex, heap: map[string]string{}, entry: map[string]string{}}
+		term := ex.evalClause(&SpecEnv{st: scratch, vars: map[string]Val{}}, ax, &Contract{Key: "axiom"})
+		if len(scratch.lines) > 0 {
+			st.assume(ex.evalClause(&SpecEnv{st: st, vars: map[string]Val{}}, ax, &Contract{Key: "axiom"}))
+			continue
+		}
+		used := map[string]bool{}
+		smtTokens(term, used)
+		var owners []string
+		for tk := range used {
+			if strings.HasPrefix(tk, "sf!") {
+				owners = append(owners, tk)
+			}
+		}
+		sort.Strings(owners)
+		if len(owners) == 0 {
+			st.assume(term)
+			continue
+		}
+		ex.ctx.fact("axiom!"+ax.Label, term, owners...)
 	}
 	o := ex.newObl(st, "vacuity", "requires_satisfiable", "false", "requires ∧ axioms satisfiable", con.Props)
 	o.Vacuity = true
